@@ -25,6 +25,7 @@ GLess(a, b) == ~L!Geq(a, b)
 ZeroG == L!Zero8
 OneG == L!One8
 InG == {L!Zero8}
+SevenG == L!F8(7)
 
 VARIABLE l
 tvars == <<vars, l>>
@@ -32,19 +33,31 @@ tvars == <<vars, l>>
 T(x) == IF x[1] = "v" THEN <<"v", x[2]>> ELSE <<"w", x[2], x[3]>>
 Ev(e) == l <= N /\ Rec[l].ev = e /\ l' = l + 1
 Obs == last'.res = T(Rec[l].res) /\ last'.ng = Rec[l].ng
+TE(x) == <<T(x[1]), T(x[2])>>
+ObsE == last'.res = TE(Rec[l].res) /\ last'.ng = Rec[l].ng
 
 \* constants of a row after build: arithmetic rows carry their parameters; generator cells carry the
 \* constant assigned to them (zero when the cell was left over)
 CellConst(as, r, j) == IF \E c \in DOMAIN as : as[c] = <<r, j>> THEN CHOOSE c \in DOMAIN as : as[c] = <<r, j>> ELSE L!Zero8
-RowConsts(rs, as, r) == IF rs[r + 1].kind = "arith" THEN rs[r + 1].params
+RowConsts(rs, as, r) == IF rs[r + 1].kind \in {"arith", "arithext", "mulext"} THEN rs[r + 1].params
                         ELSE [j \in 1..rs[r + 1].cells |-> CellConst(as, r, j - 1)]
 
 TraceInit == Init /\ l = 2
-TrReset == Ev("reset") /\ rows' = <<>> /\ slots' = <<>> /\ used' = {} /\ nvirt' = 0 /\ c2t' = <<>> /\ cache' = <<>>
+TrReset == Ev("reset") /\ rows' = <<>> /\ slots' = <<>> /\ used' = {} /\ nvirt' = 0 /\ c2t' = <<>> /\ cache' = <<>> /\ ecache' = <<>>
           /\ tval' = <<>> /\ last' = [ev |-> "init"] /\ built' = [done |-> FALSE]
 TrVirt == Ev("virt") /\ Virt(L!Zero8) /\ Obs
 TrConst == Ev("const") /\ Const(Rec[l].c) /\ Obs
-TrArith == Ev("arith") /\ Arith(Rec[l].c0, Rec[l].c1, T(Rec[l].x), T(Rec[l].y), T(Rec[l].z)) /\ Obs
+NoBase == "nobase" \in DOMAIN Rec[1] /\ Rec[1].nobase
+\* use_base_arithmetic_gate = false: arithmetic forwards to arithmetic_extension on (t, zero) pairs and returns
+\* the first coefficient (convert_to_ext allocates the zero constant first, as ConstExtStep does)
+Z0 == IF Has(c2t, FZero) THEN V(c2t[FZero]) ELSE V(nvirt)
+TrArith == /\ Ev("arith")
+           /\ IF NoBase
+              THEN /\ ArithExt(Rec[l].c0, Rec[l].c1, <<T(Rec[l].x), Z0>>, <<T(Rec[l].y), Z0>>, <<T(Rec[l].z), Z0>>)
+                   /\ last'.res[1] = T(Rec[l].res) /\ last'.ng = Rec[l].ng
+              ELSE Arith(Rec[l].c0, Rec[l].c1, T(Rec[l].x), T(Rec[l].y), T(Rec[l].z)) /\ Obs
+TrConstExt == Ev("constext") /\ ConstExt(<<Rec[l].e[1], Rec[l].e[2]>>) /\ ObsE
+TrArithExt == Ev("arithext") /\ ArithExt(Rec[l].c0, Rec[l].c1, TE(Rec[l].x), TE(Rec[l].y), TE(Rec[l].z)) /\ ObsE
 TrRa == Ev("ra") /\ RandomAccess(Rec[l].bits, L!Zero8) /\ Obs
 TrRow == Ev("row") /\ AddRow(Rec[l].kind) /\ last'.ng = Rec[l].ng
 TrBuild == /\ Ev("build") /\ Build(Rec[l].npi)
@@ -53,21 +66,25 @@ TrBuild == /\ Ev("build") /\ Build(Rec[l].npi)
           /\ \A r \in 0..(Len(rows') - 1) :
                 /\ rows'[r + 1].kind = Rec[l].rows[r + 1].kind
                 /\ RowConsts(rows', built'.assign, r) = Rec[l].rows[r + 1].consts
-TraceNext == TrReset \/ TrVirt \/ TrConst \/ TrArith \/ TrRa \/ TrRow \/ TrBuild
+TraceNext == TrReset \/ TrVirt \/ TrConst \/ TrArith \/ TrConstExt \/ TrArithExt \/ TrRa \/ TrRow \/ TrBuild
 TraceSpec == TraceInit /\ [][TraceNext]_tvars
 
 \* vacuity: how often each path of `arithmetic`, a second row of equal parameters and generator cells of
 \* RandomAccessGate rows were met (registers, -workers 1)
 PathIdx(p) == CASE p = "fold" -> 11 [] p = "addend" -> 12 [] p = "m0" -> 13 [] p = "m1" -> 14 [] p = "cache" -> 15 [] p = "slot" -> 16
-ASSUME \A i \in 11..19 : TLCSet(i, 0)
+EPathIdx(p) == CASE p = "fold" -> 20 [] p = "addend" -> 21 [] p = "m0" -> 22 [] p = "m1" -> 23 [] p = "cache" -> 24 [] p = "slot" -> 25 [] p = "mulslot" -> 26
+ASSUME \A i \in 11..26 : TLCSet(i, 0)
 Bump(i) == TLCSet(i, TLCGet(i) + 1)
 Count == /\ (last'.ev = "arith" => Bump(PathIdx(last'.path)))
+         /\ (last'.ev = "arithext" => Bump(EPathIdx(last'.path)))
          /\ (last'.ev = "ra" => Bump(17))
          /\ (last'.ev = "build" => /\ Bump(18)
                                    /\ (\E c \in DOMAIN built'.assign : rows'[built'.assign[c][1] + 1].kind \notin {"const"}) => Bump(19))
 Accepted == /\ PrintT("BTRACE " \o ToJson([distinct |-> TLCGet("distinct"), n |-> N,
                                             fold |-> TLCGet(11), addend |-> TLCGet(12), m0 |-> TLCGet(13), m1 |-> TLCGet(14),
                                             cache |-> TLCGet(15), slot |-> TLCGet(16), ra |-> TLCGet(17),
-                                            builds |-> TLCGet(18), ra_cells_used |-> TLCGet(19)]))
+                                            builds |-> TLCGet(18), ra_cells_used |-> TLCGet(19),
+                                            efold |-> TLCGet(20), eaddend |-> TLCGet(21), em0 |-> TLCGet(22), em1 |-> TLCGet(23),
+                                            ecache |-> TLCGet(24), eslot |-> TLCGet(25), emulslot |-> TLCGet(26)]))
 \* acceptance (distinct = n: one state per consumed line) is decided by the driver from the printed record
 =============================================================================
